@@ -260,6 +260,7 @@ func (vm *VM) Run(st ref.State) (tr *ref.Trace) {
 		case "goto_if_set", "goto_if_unset":
 			fl, lbl := SplitLast(l.Args)
 			v := st.Flag(epoch, fl)
+			cr = condReg{} // goto_if_set/unset is checkflag + goto_if: the earlier comparison result is gone
 			tr.Events = append(tr.Events, ref.Event{K: 'q', Name: "flag", Text: fl})
 			if v == (l.Op == "goto_if_set") {
 				if !jump(lbl, true) {
@@ -328,6 +329,7 @@ func (vm *VM) Run(st ref.State) (tr *ref.Trace) {
 				problem("line %d: case without a preceding switch", pc+1)
 				return
 			}
+			cr = condReg{} // case is compare + goto_if_eq
 			if spec.ValueInt(v) == swVal {
 				if !jump(lbl, true) {
 					return
